@@ -285,7 +285,9 @@ func (sm *Str2Str) LoadFromSlice(kk, vv []string) error {
 	if len(kk) != len(vv) {
 		return errors.New("kv len not match")
 	}
-	if sm.strStore == nil {
+	if sm.strStore == nil || sm.strStore.Views(kk) {
+		// a key may be a view of the value store (returned by Get):
+		// its buffer must not be overwritten before the keys are copied
 		sm.strStore = strstore.New()
 	}
 	ids, err := sm.strStore.Load(vv)
